@@ -23,7 +23,7 @@ Definition EINVAL : N := 22.    Definition ENOTEMPTY : N := 39. Definition ELOOP
 Definition EFUEL : N := 9999.   (* model-only *)
 
 (* results of the specification, already in projected (observable) form *)
-Inductive sres :=
+Inductive pres :=
 | SOk
 | SErr (e : N)
 | SInfo (i : finfo)
@@ -141,26 +141,18 @@ Fixpoint kwalk (fuel : nat) (h : heap) (u : user) (root : nat) (pm follow : bool
 
 Definition WALK_FUEL : nat := 4000.
 
-(* the directory a relative path starts from: MemFS keeps the working directory as a path
-   string; the specification resolves it (as the administrator) to a node.  Histories in which
-   the working directory itself is renamed or removed are outside the generated universe. *)
-Definition root_cred : user := {| us_uid := 0; us_gid := 0; us_admin := true |}.
+(* The kernel keeps the working directory as a node (not as a path string, as MemFS does): the
+   specification state carries it in [v_cwdn]. *)
+Record sview := { sv_view : view; sv_cwd : nat }.
 
-Definition cwd_node (s : fsys) (v : view) : option nat :=
-  match kwalk WALK_FUEL (f_heap s) root_cred (v_root v) false true (v_root v) (kcomps (v_cwd v)) 0 false with
-  | WNode _ _ _ n => Some n
-  | _ => None
-  end.
-
-Definition klookup (s : fsys) (v : view) (pm follow : bool) (p : str) : wres :=
+Definition klookup (s : fsys) (sv : sview) (pm follow : bool) (p : str) : wres :=
+  let v := sv_view sv in
+  let v := sv_view sv in
   match p with
   | [] => WErr ENOENT
   | _ =>
-      let start := if kabs p then Some (v_root v) else cwd_node s v in
-      match start with
-      | None => WErr ENOENT
-      | Some st => kwalk WALK_FUEL (f_heap s) (v_user v) (v_root v) pm follow st (kcomps p) 0 (ktrailing p)
-      end
+      let st := if kabs p then v_root v else sv_cwd sv in
+      kwalk WALK_FUEL (f_heap s) (v_user v) (v_root v) pm follow st (kcomps p) 0 (ktrailing p)
   end.
 
 (* ---- helpers on nodes --------------------------------------------------------------- *)
@@ -170,6 +162,14 @@ Definition node_is_sym (h : heap) (i : nat) : bool :=
   match get h i with Some (NSym _ _) => true | _ => false end.
 Definition meta_of (h : heap) (i : nat) : meta :=
   match get h i with Some n => node_meta n | None => {| m_mode := 0; m_uid := 0; m_gid := 0 |} end.
+
+(* dropping one name of a node AFTER its entry has been removed: a file loses one link; a symbolic link
+   (which the kernel lets one hard-link) keeps its target while another name remains *)
+Definition release (h : heap) (c : nat) : heap :=
+  match get h c with
+  | Some (NSym _ _) => match find_parent h 0 c with Some _ => h | None => delete_node h c end
+  | _ => delete_node h c
+  end.
 
 (* sticky directory: only the owner of the entry, the owner of the directory or root may
    delete or rename an entry (check_sticky) *)
@@ -203,8 +203,9 @@ Definition alloc_child (s : fsys) (parent : nat) (name : str) (n : node) (bump_i
 
 (* ---- system calls -------------------------------------------------------------------- *)
 (* mkdir(2): mode & 01777 (sticky allowed, set-id bits dropped) *)
-Definition k_mkdir (s : fsys) (v : view) (p : str) (perm : N) : fsys * sres :=
-  match klookup s v true false p with
+Definition k_mkdir (s : fsys) (sv : sview) (p : str) (perm : N) : fsys * pres :=
+  let v := sv_view sv in
+  match klookup s sv true false p with
   | WErr e => (s, SErr e)
   | WParent par k name _ =>
       let h := f_heap s in
@@ -224,8 +225,9 @@ Definition k_mkdir (s : fsys) (v : view) (p : str) (perm : N) : fsys * sres :=
   end.
 
 (* rmdir(2) *)
-Definition k_rmdir (s : fsys) (v : view) (p : str) : fsys * sres :=
-  match klookup s v true false p with
+Definition k_rmdir (s : fsys) (sv : sview) (p : str) : fsys * pres :=
+  let v := sv_view sv in
+  match klookup s sv true false p with
   | WErr e => (s, SErr e)
   | WParent par k name _ =>
       let h := f_heap s in
@@ -249,8 +251,9 @@ Definition k_rmdir (s : fsys) (v : view) (p : str) : fsys * sres :=
   end.
 
 (* unlink(2) *)
-Definition k_unlink (s : fsys) (v : view) (p : str) : fsys * sres :=
-  match klookup s v true false p with
+Definition k_unlink (s : fsys) (sv : sview) (p : str) : fsys * pres :=
+  let v := sv_view sv in
+  match klookup s sv true false p with
   | WErr e => (s, SErr e)
   | WParent par k name mustdir =>
       let h := f_heap s in
@@ -262,7 +265,7 @@ Definition k_unlink (s : fsys) (v : view) (p : str) : fsys * sres :=
               if mustdir then (s, SErr (if node_is_dir h c then EISDIR else ENOTDIR))
               else match may_delete h par c false (v_user v) with
                    | Some e => (s, SErr e)
-                   | None => (with_heap s (delete_node (remove_child h par name) c), SOk)
+                   | None => (with_heap s (release (remove_child h par name) c), SOk)
                    end
           end
       | _ => (s, SErr EISDIR)
@@ -280,11 +283,12 @@ Fixpoint is_ancestor (fuel : nat) (h : heap) (root a d : nat) : bool :=
   end.
 
 (* renameat2(2), flags = 0 *)
-Definition k_rename (s : fsys) (v : view) (o n : str) : fsys * sres :=
-  match klookup s v true false o with
+Definition k_rename (s : fsys) (sv : sview) (o n : str) : fsys * pres :=
+  let v := sv_view sv in
+  match klookup s sv true false o with
   | WErr e => (s, SErr e)
   | WParent op ok oname omust =>
-      match klookup s v true false n with
+      match klookup s sv true false n with
       | WErr e => (s, SErr e)
       | WParent np nk nname nmust =>
           let h := f_heap s in
@@ -318,7 +322,7 @@ Definition k_rename (s : fsys) (v : view) (o n : str) : fsys * sres :=
                                     then (s, SErr ENOTEMPTY)
                                else
                                  let h1 := match nco with
-                                           | Some nc => delete_node (remove_child h np nname) nc
+                                           | Some nc => release (remove_child h np nname) nc
                                            | None => h
                                            end in
                                  let h2 := remove_child h1 op oname in
@@ -334,12 +338,13 @@ Definition k_rename (s : fsys) (v : view) (o n : str) : fsys * sres :=
   end.
 
 (* linkat(2) without AT_SYMLINK_FOLLOW.  [phl]: fs.protected_hardlinks *)
-Definition k_link (phl : bool) (s : fsys) (v : view) (o n : str) : fsys * sres :=
-  match klookup s v false false o with
+Definition k_link (phl : bool) (s : fsys) (sv : sview) (o n : str) : fsys * pres :=
+  let v := sv_view sv in
+  match klookup s sv false false o with
   | WErr e => (s, SErr e)
   | WNeg _ _ _ => (s, SErr ENOENT)
   | WNode _ _ _ oc =>
-      match klookup s v true false n with
+      match klookup s sv true false n with
       | WErr e => (s, SErr e)
       | WParent np nk nname nmust =>
           let h := f_heap s in
@@ -374,11 +379,12 @@ Definition k_link (phl : bool) (s : fsys) (v : view) (o n : str) : fsys * sres :
   end.
 
 (* symlinkat(2) *)
-Definition k_symlink (s : fsys) (v : view) (target n : str) : fsys * sres :=
+Definition k_symlink (s : fsys) (sv : sview) (target n : str) : fsys * pres :=
+  let v := sv_view sv in
   match target with
   | [] => (s, SErr ENOENT)
   | _ =>
-      match klookup s v true false n with
+      match klookup s sv true false n with
       | WErr e => (s, SErr e)
       | WParent np nk nname nmust =>
           let h := f_heap s in
@@ -400,8 +406,9 @@ Definition k_symlink (s : fsys) (v : view) (target n : str) : fsys * sres :=
       end
   end.
 
-Definition k_readlink (s : fsys) (v : view) (p : str) : sres :=
-  match klookup s v false false p with
+Definition k_readlink (s : fsys) (sv : sview) (p : str) : pres :=
+  let v := sv_view sv in
+  match klookup s sv false false p with
   | WErr e => SErr e
   | WNeg _ _ _ => SErr ENOENT
   | WNode _ _ _ c => match get (f_heap s) c with Some (NSym t _) => SStr t | _ => SErr EINVAL end
@@ -421,17 +428,19 @@ Definition k_info (h : heap) (c : nat) (name : str) : finfo :=
   | None => {| fi_name := name; fi_size := 0; fi_mode := 0; fi_uid := 0; fi_gid := 0; fi_nlink := 0; fi_id := 0 |}
   end.
 
-Definition k_stat (follow : bool) (s : fsys) (v : view) (p : str) : sres :=
-  match klookup s v false follow p with
+Definition k_stat (follow : bool) (s : fsys) (sv : sview) (p : str) : pres :=
+  let v := sv_view sv in
+  match klookup s sv false follow p with
   | WErr e => SErr e
   | WNeg _ _ _ => SErr ENOENT
   | WNode _ _ _ c => SInfo (k_info (f_heap s) c (base (v_os v) p))
   | _ => SErr EFUEL
   end.
 
-Definition k_truncate (s : fsys) (v : view) (p : str) (size : Z) : fsys * sres :=
+Definition k_truncate (s : fsys) (sv : sview) (p : str) (size : Z) : fsys * pres :=
+  let v := sv_view sv in
   if Z.ltb size 0 then (s, SErr EINVAL)
-  else match klookup s v false true p with
+  else match klookup s sv false true p with
        | WErr e => (s, SErr e)
        | WNeg _ _ _ => (s, SErr ENOENT)
        | WNode _ _ _ c =>
@@ -445,8 +454,9 @@ Definition k_truncate (s : fsys) (v : view) (p : str) (size : Z) : fsys * sres :
        end.
 
 (* chmod(2): owner or CAP_FOWNER; a non-member of the file's group loses S_ISGID *)
-Definition k_chmod (s : fsys) (v : view) (p : str) (mode : N) : fsys * sres :=
-  match klookup s v false true p with
+Definition k_chmod (s : fsys) (sv : sview) (p : str) (mode : N) : fsys * pres :=
+  let v := sv_view sv in
+  match klookup s sv false true p with
   | WErr e => (s, SErr e)
   | WNeg _ _ _ => (s, SErr ENOENT)
   | WNode _ _ _ c =>
@@ -466,8 +476,9 @@ Definition k_chmod (s : fsys) (v : view) (p : str) (mode : N) : fsys * sres :=
 
 (* chown(2)/lchown(2): -1 leaves a value unchanged; only root changes the owner; the owner
    may change the group to its own; set-id bits of a non-directory are cleared *)
-Definition k_chown (follow : bool) (s : fsys) (v : view) (p : str) (uid gid : Z) : fsys * sres :=
-  match klookup s v false follow p with
+Definition k_chown (follow : bool) (s : fsys) (sv : sview) (p : str) (uid gid : Z) : fsys * pres :=
+  let v := sv_view sv in
+  match klookup s sv false follow p with
   | WErr e => (s, SErr e)
   | WNeg _ _ _ => (s, SErr ENOENT)
   | WNode _ _ _ c =>
@@ -484,8 +495,7 @@ Definition k_chown (follow : bool) (s : fsys) (v : view) (p : str) (uid gid : Z)
           if negb ok then (s, SErr EPERM)
           else
             let isdir := match n with NDir _ _ => true | _ => false end in
-            let noop := Z.eqb uid (-1) && Z.eqb gid (-1) in
-            let mode1 := if isdir || noop then m_mode m
+            let mode1 := if isdir then m_mode m
                          else let a := N.ldiff (m_mode m) MODE_SETUID in
                               if has (m_mode m) 8 then N.ldiff a MODE_SETGID else a in
             (with_heap s (upd (f_heap s) c (set_meta n {| m_mode := mode1; m_uid := nuid; m_gid := ngid |})), SOk)
@@ -495,8 +505,9 @@ Definition k_chown (follow : bool) (s : fsys) (v : view) (p : str) (uid gid : Z)
   end.
 
 (* utimensat(2) with explicit times: owner or CAP_FOWNER *)
-Definition k_utimes (s : fsys) (v : view) (p : str) : sres :=
-  match klookup s v false true p with
+Definition k_utimes (s : fsys) (sv : sview) (p : str) : pres :=
+  let v := sv_view sv in
+  match klookup s sv false true p with
   | WErr e => SErr e
   | WNeg _ _ _ => SErr ENOENT
   | WNode _ _ _ c => if owner_or_root (meta_of (f_heap s) c) (v_user v) then SOk else SErr EPERM
@@ -504,8 +515,9 @@ Definition k_utimes (s : fsys) (v : view) (p : str) : sres :=
   end.
 
 (* chdir(2): returns the node *)
-Definition k_chdir (s : fsys) (v : view) (p : str) : N + nat :=
-  match klookup s v false true p with
+Definition k_chdir (s : fsys) (sv : sview) (p : str) : N + nat :=
+  let v := sv_view sv in
+  match klookup s sv false true p with
   | WErr e => inl e
   | WNeg _ _ _ => inl ENOENT
   | WNode _ _ _ c =>
@@ -537,7 +549,8 @@ Definition acc_mask (acc : N) (trunc : bool) : N :=
   let w := if N.eqb acc 1 || N.eqb acc 2 || trunc then 2 else 0 in
   N.lor r w.
 
-Definition k_open (s : fsys) (v : view) (p : str) (flag perm : N) : fsys * (N + nat) :=
+Definition k_open (s : fsys) (sv : sview) (p : str) (flag perm : N) : fsys * (N + nat) :=
+  let v := sv_view sv in
   let '(OF acc creat excl trunc append) := decode_flags flag in
   let h := f_heap s in
   let u := v_user v in
@@ -558,7 +571,7 @@ Definition k_open (s : fsys) (v : view) (p : str) (flag perm : N) : fsys * (N + 
     | _ => (s0, inl ELOOP)
     end in
   if creat then
-    match klookup s v true false p with
+    match klookup s sv true false p with
     | WErr e => (s, inl e)
     | WParent par k name mustdir =>
         match k with
@@ -566,7 +579,7 @@ Definition k_open (s : fsys) (v : view) (p : str) (flag perm : N) : fsys * (N + 
             if mustdir then (s, inl EISDIR)
             else
               (* resolve a final symbolic link unless O_EXCL *)
-              match klookup s v false (negb excl) p with
+              match klookup s sv false (negb excl) p with
               | WErr e => (s, inl e)
               | WNode _ _ _ c => if excl then (s, inl EEXIST) else open_existing s c false
               | WNeg par' name' _ =>
@@ -579,7 +592,7 @@ Definition k_open (s : fsys) (v : view) (p : str) (flag perm : N) : fsys * (N + 
               | _ => (s, inl EFUEL)
               end
         | _ =>
-            match klookup s v false true p with
+            match klookup s sv false true p with
             | WErr e => (s, inl e)
             | WNode _ _ _ c => if excl then (s, inl EEXIST) else (s, inl EISDIR)
             | _ => (s, inl EISDIR)
@@ -588,7 +601,7 @@ Definition k_open (s : fsys) (v : view) (p : str) (flag perm : N) : fsys * (N + 
     | _ => (s, inl EFUEL)
     end
   else
-    match klookup s v false true p with
+    match klookup s sv false true p with
     | WErr e => (s, inl e)
     | WNeg _ _ _ => (s, inl ENOENT)
     | WNode _ _ _ c => open_existing s c false
@@ -599,11 +612,12 @@ Definition k_open (s : fsys) (v : view) (p : str) (flag perm : N) : fsys * (N + 
 Definition go_mkdir := k_mkdir.
 
 (* os.Remove: unlink, then rmdir; "both failed": rmdir's error unless it is ENOTDIR *)
-Definition go_remove (s : fsys) (v : view) (p : str) : fsys * sres :=
-  match k_unlink s v p with
+Definition go_remove (s : fsys) (sv : sview) (p : str) : fsys * pres :=
+  let v := sv_view sv in
+  match k_unlink s sv p with
   | (s1, SOk) => (s1, SOk)
   | (_, SErr e) =>
-      match k_rmdir s v p with
+      match k_rmdir s sv p with
       | (s1, SOk) => (s1, SOk)
       | (_, SErr e1) => (s, SErr (if N.eqb e1 ENOTDIR then e else e1))
       | (_, r) => (s, r)
@@ -612,15 +626,16 @@ Definition go_remove (s : fsys) (v : view) (p : str) : fsys * sres :=
   end.
 
 (* os.Rename: the destination-is-a-directory pre-check of file_unix.go *)
-Definition go_rename (s : fsys) (v : view) (o n : str) : fsys * sres :=
+Definition go_rename (s : fsys) (sv : sview) (o n : str) : fsys * pres :=
+  let v := sv_view sv in
   let pre :=
-    match k_stat false s v n with
+    match k_stat false s sv n with
     | SInfo ni =>
         if has (fi_mode ni) MODE_DIR then
-          match k_stat false s v o with
+          match k_stat false s sv o with
           | SErr e => Some e
           | SInfo oi =>
-              let same := match klookup s v false false n, klookup s v false false o with
+              let same := match klookup s sv false false n, klookup s sv false false o with
                           | WNode _ _ _ a, WNode _ _ _ b => Nat.eqb a b
                           | _, _ => false
                           end in
@@ -632,7 +647,7 @@ Definition go_rename (s : fsys) (v : view) (o n : str) : fsys * sres :=
     end in
   match pre with
   | Some e => (s, SErr e)
-  | None => k_rename s v o n
+  | None => k_rename s sv o n
   end.
 
 (* os.MkdirAll (path.go) *)
@@ -647,24 +662,25 @@ Definition parent_prefix (p : str) : str :=
   | _ :: r' => rev r'
   end.
 
-Fixpoint go_mkdir_all (fuel : nat) (s : fsys) (v : view) (p : str) (perm : N) : fsys * sres :=
+Fixpoint go_mkdir_all (fuel : nat) (s : fsys) (sv : sview) (p : str) (perm : N) : fsys * pres :=
+  let v := sv_view sv in
   match fuel with
   | O => (s, SErr EFUEL)
   | S f =>
-      match k_stat true s v p with
+      match k_stat true s sv p with
       | SInfo i => if has (fi_mode i) MODE_DIR then (s, SOk) else (s, SErr ENOTDIR)
       | _ =>
           let parent := parent_prefix p in
           let '(s1, r1) := match parent with
                            | [] => (s, SOk)
-                           | _ => go_mkdir_all f s v parent perm
+                           | _ => go_mkdir_all f s sv parent perm
                            end in
           match r1 with
           | SOk =>
-              match k_mkdir s1 v p perm with
+              match k_mkdir s1 sv p perm with
               | (s2, SOk) => (s2, SOk)
               | (_, r) =>
-                  match k_stat false s1 v p with
+                  match k_stat false s1 sv p with
                   | SInfo i => if has (fi_mode i) MODE_DIR then (s1, SOk) else (s1, r)
                   | _ => (s1, r)
                   end
@@ -682,7 +698,7 @@ Fixpoint drop_tree (fuel : nat) (h : heap) (c : nat) : heap :=
   | S f =>
       match get h c with
       | Some (NDir ch _) => delete_node (fold_left (fun h0 nc => drop_tree f h0 (snd nc)) ch h) c
-      | Some _ => delete_node h c
+      | Some _ => release h c
       | None => h
       end
   end.
@@ -696,17 +712,18 @@ Definition ends_with_dot (p : str) : bool :=
 
 (* os.RemoveAll, administrator only (the order in which a non-administrator's RemoveAll stops
    at a permission failure is unspecified) *)
-Definition go_remove_all (s : fsys) (v : view) (p : str) : fsys * sres :=
+Definition go_remove_all (s : fsys) (sv : sview) (p : str) : fsys * pres :=
+  let v := sv_view sv in
   match p with
   | [] => (s, SOk)
   | _ =>
       if ends_with_dot p then (s, SErr EINVAL)
-      else match go_remove s v p with
+      else match go_remove s sv p with
            | (s1, SOk) => (s1, SOk)
            | (_, SErr e) =>
                if N.eqb e ENOENT then (s, SOk)
                else
-                 match klookup s v true false p with
+                 match klookup s sv true false p with
                  | WParent par LNorm name _ =>
                      let h := f_heap s in
                      match alookup str_eqb name (children h par) with
@@ -723,15 +740,17 @@ Definition go_remove_all (s : fsys) (v : view) (p : str) : fsys * sres :=
   end.
 
 (* os.ReadFile: open O_RDONLY, read until EOF (a directory opens, then read fails with EISDIR) *)
-Definition go_read_file (s : fsys) (v : view) (p : str) : sres :=
-  match k_open s v p 0 0 with
+Definition go_read_file (s : fsys) (sv : sview) (p : str) : pres :=
+  let v := sv_view sv in
+  match k_open s sv p 0 0 with
   | (_, inl e) => SErr e
   | (s1, inr c) => match get (f_heap s1) c with Some (NFile d _ _ _) => SBytes d | _ => SErr EISDIR end
   end.
 
 (* os.WriteFile: open O_WRONLY|O_CREATE|O_TRUNC, write, close *)
-Definition go_write_file (s : fsys) (v : view) (p : str) (data : list N) (perm : N) : fsys * sres :=
-  match k_open s v p (O_WRONLY + O_CREATE + O_TRUNC) perm with
+Definition go_write_file (s : fsys) (sv : sview) (p : str) (data : list N) (perm : N) : fsys * pres :=
+  let v := sv_view sv in
+  match k_open s sv p (O_WRONLY + O_CREATE + O_TRUNC) perm with
   | (_, inl e) => (s, SErr e)
   | (s1, inr c) =>
       match get (f_heap s1) c with
@@ -741,8 +760,9 @@ Definition go_write_file (s : fsys) (v : view) (p : str) (data : list N) (perm :
   end.
 
 (* os.ReadDir: open O_RDONLY, getdents, sorted by name; needs read permission on the directory *)
-Definition go_read_dir (s : fsys) (v : view) (p : str) : sres :=
-  match k_open s v p 0 0 with
+Definition go_read_dir (s : fsys) (sv : sview) (p : str) : pres :=
+  let v := sv_view sv in
+  match k_open s sv p 0 0 with
   | (_, inl e) => SErr e
   | (s1, inr c) =>
       match get (f_heap s1) c with
@@ -755,7 +775,7 @@ Definition go_read_dir (s : fsys) (v : view) (p : str) : sres :=
 (* ---- the specification step over the call alphabet of World.v ----------------------------- *)
 (* handle calls and view calls (Sub, SetUser, SetUMask) are not part of this specification:
    they are passed to the implementation model unchanged. *)
-Definition proj_res (os : ostype) (r : res) : sres :=
+Definition proj_res (os : ostype) (r : res) : pres :=
   match r with
   | ROk => SOk
   | RFail e | RErrPath e _ => SErr (snd (ecode os e))
@@ -766,34 +786,77 @@ Definition proj_res (os : ostype) (r : res) : sres :=
   | _ => SErr EFUEL
   end.
 
-Definition spec_fs_step (phl : bool) (s : fsys) (v : view) (c : call) : option (fsys * sres * option str) :=
-  (* third component: the new working directory, for Chdir *)
-  let keep (r : fsys * sres) := Some (fst r, snd r, None) in
-  let ro (r : sres) := Some (s, r, None) in
+Record sworld := { sw_fs : fsys; sw_sv : sview }.
+
+Definition set_user (v : view) (u : user) : view :=
+  {| v_root := v_root v; v_cwd := v_cwd v; v_user := u; v_umask := v_umask v; v_os := v_os v; v_idm := v_idm v |}.
+Definition set_umask (v : view) (m : N) : view :=
+  {| v_root := v_root v; v_cwd := v_cwd v; v_user := v_user v; v_umask := m; v_os := v_os v; v_idm := v_idm v |}.
+
+Definition spec_step (phl : bool) (w : sworld) (c : call) : sworld * pres :=
+  let s := sw_fs w in
+  let sv := sw_sv w in
+  let v := sv_view sv in
+  let keep (r : fsys * pres) := ({| sw_fs := fst r; sw_sv := sv |}, snd r) in
+  let ro (r : pres) := (w, r) in
   match c with
-  | CMkdir _ p perm => keep (go_mkdir s v p perm)
-  | CMkdirAll _ p perm => keep (go_mkdir_all (S (length p)) s v p perm)
-  | CRemove _ p => keep (go_remove s v p)
-  | CRemoveAll _ p => keep (go_remove_all s v p)
-  | CRename _ o n => keep (go_rename s v o n)
-  | CLink _ o n => keep (k_link phl s v o n)
-  | CSymlink _ o n => keep (k_symlink s v o n)
-  | CReadlink _ p => ro (k_readlink s v p)
-  | CTruncate _ p size => keep (k_truncate s v p size)
-  | CChmod _ p mode => keep (k_chmod s v p mode)
-  | CChown _ p uid gid => keep (k_chown true s v p uid gid)
-  | CLchown _ p uid gid => keep (k_chown false s v p uid gid)
-  | CChtimes _ p => ro (k_utimes s v p)
-  | CChdir _ p =>
-      match k_chdir s v p with
-      | inl e => ro (SErr e)
-      | inr d => Some (s, SOk, Some (path_of (S (length (f_heap s))) (f_heap s) (v_root v) d []))
+  | CMkdir _ p perm => keep (go_mkdir s sv p perm)
+  | CMkdirAll _ p perm => keep (go_mkdir_all (S (length p)) s sv p perm)
+  | COpenFile _ p flag perm =>          (* open and close at once: only the effect on the tree is specified here *)
+      match k_open s sv p flag perm with
+      | (s1, inl e) => ({| sw_fs := s1; sw_sv := sv |}, SErr e)
+      | (s1, inr _) => ({| sw_fs := s1; sw_sv := sv |}, SOk)
       end
-  | CGetwd _ => ro (SStr (v_cwd v))
-  | CStat _ p => ro (k_stat true s v p)
-  | CLstat _ p => ro (k_stat false s v p)
-  | CReadDir _ p => ro (go_read_dir s v p)
-  | CReadFile _ p => ro (go_read_file s v p)
-  | CWriteFile _ p data perm => keep (go_write_file s v p data perm)
-  | _ => None
+  | CRemove _ p => keep (go_remove s sv p)
+  | CRemoveAll _ p => keep (go_remove_all s sv p)
+  | CRename _ o n => keep (go_rename s sv o n)
+  | CLink _ o n => keep (k_link phl s sv o n)
+  | CSymlink _ o n => keep (k_symlink s sv o n)
+  | CReadlink _ p => ro (k_readlink s sv p)
+  | CTruncate _ p size => keep (k_truncate s sv p size)
+  | CChmod _ p mode => keep (k_chmod s sv p mode)
+  | CChown _ p uid gid => keep (k_chown true s sv p uid gid)
+  | CLchown _ p uid gid => keep (k_chown false s sv p uid gid)
+  | CChtimes _ p => ro (k_utimes s sv p)
+  | CChdir _ p =>
+      match k_chdir s sv p with
+      | inl e => ro (SErr e)
+      | inr d => ({| sw_fs := s; sw_sv := {| sv_view := v; sv_cwd := d |} |}, SOk)
+      end
+  | CGetwd _ =>
+      let h := f_heap s in
+      if is_ancestor (S (length h)) h (v_root v) (v_root v) (sv_cwd sv)
+      then ro (SStr (path_of (S (length h)) h (v_root v) (sv_cwd sv) []))
+      else ro (SErr ENOENT)
+  | CStat _ p => ro (k_stat true s sv p)
+  | CLstat _ p => ro (k_stat false s sv p)
+  | CReadDir _ p => ro (go_read_dir s sv p)
+  | CReadFile _ p => ro (go_read_file s sv p)
+  | CWriteFile _ p data perm => keep (go_write_file s sv p data perm)
+  | CSetUser _ uid gid admin =>
+      ({| sw_fs := s; sw_sv := {| sv_view := set_user v {| us_uid := uid; us_gid := gid; us_admin := admin |};
+                                  sv_cwd := sv_cwd sv |} |}, SOk)
+  | CSetUMask _ m =>
+      ({| sw_fs := s; sw_sv := {| sv_view := set_umask v m; sv_cwd := sv_cwd sv |} |}, SOk)
+  | _ => (w, SErr EFUEL)
   end.
+
+Definition spec_init (um : N) : sworld :=
+  let w := init_world_linux um in
+  {| sw_fs := w_fs w;
+     sw_sv := {| sv_view := match w_views w with v :: _ => v | [] => init_view Linux um end; sv_cwd := 0 |} |}.
+
+(* the implementation model's answer, projected to the specification's observables, for one view *)
+Definition impl_step_proj (w : world) (c : call) : world * pres :=
+  let '(w1, r) := wstep w c in
+  let r' := match c, r with
+            | COpenFile _ _ _ _, RHandle _ => SOk
+            | CChtimes _ _, _ => proj_res Linux r
+            | _, _ => proj_res Linux r
+            end in
+  (w1, r').
+
+(* ---- the decidable classifier of known deviations of MemFS from Linux -------------------------- *)
+(* [kf_class w c = Some k]: on specification state [w] the call [c] belongs to the known-finding class
+   number [k] (known_findings.jsonl lists them by this number).  Everything else must agree. *)
+Definition kf_class (w : sworld) (c : call) : option N := None.
